@@ -1,4 +1,5 @@
 import DaskModel.Model.TaskTerm
+import DaskModel.Model.SpecOpt
 /-
 K7 (part 3): `dask.graph_manipulation` — key regeneration (`clone`/`bind`), `checkpoint` trees.
 
@@ -9,6 +10,9 @@ Layer.clone: GraphNode.substitute(subs, key=new_key)       `renameNode ρ`
 Layer.clone.clone_value on legacy values                   `cloneValue keys ρ` (returns the new value and `is_leaf`)
 (chunks.bind, value, bind_to) / Task(key, chunks.bind, ..) `bindLegacy`, `bindNode`
 checkpoint's recursive aggregation (`while … > split_every`) `checkpointReduce`
+Layer.clone (whole loop, both branches, `bound`)           `cloneSpecLayer`, `cloneLegacyLayer`
+Blockwise.clone (indices / numblocks / output / task wrapper) `blockwiseClone` (`blockwiseLeaf` = its `is_leaf`)
+_bind_one: the two worklists over layer names, new_layers/new_deps  `cloneLoop`, `verbLoop`, `bindOne` (`setKey` from Model/SpecOpt)
 Import-free (linked into the native driver).
 -/
 namespace Dask.TaskTerm
@@ -136,5 +140,164 @@ def blockwiseLeaf (names : List Obj) (indices : List BwArg) (numblocks : List Ob
       | .ref k => names.contains k
       | .other => false) &&
   !(numblocks.any fun k => names.contains k)
+
+/-- `Blockwise.clone`'s view of a layer: output name, the first components of `indices`, the keys of `numblocks`, the
+    key of the task -/
+structure BwLayer where
+  output : Obj
+  indices : List BwArg
+  numblocks : List Obj
+  taskKey : Obj
+  deriving Repr, Inhabited
+
+/-- the rewritten layer; `wrapped = some i`: the task became
+    `Task(clone_key(task.key), chunks.bind, task, TaskRef(blockwise_token(i)))` (otherwise `task.substitute({}, key=…)`) -/
+structure BwClone where
+  output : Obj
+  indices : List BwArg
+  numblocks : List Obj
+  taskKey : Obj
+  wrapped : Option Nat
+  deriving Repr, Inhabited
+
+/-- the loop over `self.indices` (blockwise.py 767-780): exactly the names / TaskRef keys in `names` are renamed -/
+def bwRenameArg (names : List Obj) (ρ : Obj → Obj) : BwArg → BwArg
+  | .name k => if names.contains k then .name (ρ k) else .name k
+  | .ref k => if names.contains k then .ref (ρ k) else .ref k
+  | .other => .other
+
+/-- `Blockwise.clone(keys, seed, bind_to)` with `names = {get_name_from_key(k) for k in keys}` (blockwise.py 746-820):
+    `(new layer, bind_to is not None and is_leaf)` -/
+def blockwiseClone (names : List Obj) (ρ : Obj → Obj) (bindTo : Option Obj) (L : BwLayer) : BwClone × Bool :=
+  let leaf := blockwiseLeaf names L.indices L.numblocks
+  let idx := L.indices.map (bwRenameArg names ρ)
+  let nb := L.numblocks.map fun k => if names.contains k then ρ k else k
+  match bindTo with
+  | some b =>
+    if leaf then (⟨ρ L.output, idx ++ [.ref b], nb, ρ L.taskKey, some idx.length⟩, true)
+    else (⟨ρ L.output, idx, nb, ρ L.taskKey, none⟩, false)
+  | none => (⟨ρ L.output, idx, nb, ρ L.taskKey, none⟩, false)
+
+/-- the layer names an `indices` list refers to (what `HighLevelGraph.dependencies` records for the layer) -/
+def argRefs : List BwArg → List Obj
+  | [] => []
+  | .name k :: rest => k :: argRefs rest
+  | .ref k :: rest => k :: argRefs rest
+  | .other :: rest => argRefs rest
+
+/-- `checkpointReduce` with an explicit result for "fuel exhausted while the loop condition still holds" (`none`) -/
+def checkpointReduce? (name : Obj) (mk : Nat → Obj) (se : Nat) : Nat → List Obj → List (Obj × List Obj) → Option (List (Obj × List Obj))
+  | 0, mapKeys, layer => if se ≠ 0 ∧ mapKeys.length > se then none else some (layer ++ [(name, mapKeys)])
+  | fuel + 1, mapKeys, layer =>
+    if se ≠ 0 ∧ mapKeys.length > se then
+      let k := mk layer.length
+      checkpointReduce? name mk se fuel (mapKeys.drop se ++ [k]) (layer ++ [(k, mapKeys.take se)])
+    else some (layer ++ [(name, mapKeys)])
+
+/-! ### `_bind_one` (graph_manipulation.py 315-408): bookkeeping over layer names -/
+
+/-- where a layer of the resulting HighLevelGraph comes from -/
+inductive LayerOrigin where
+  /-- a layer of the checkpoint's graph (`new_layers.update(blocker_dsk.layers)`) -/
+  | blocker
+  /-- `layer.clone(keys=clone_keys, seed=seed, bind_to=blocker_key)` of layer `prev`, with the `is_bound` it returned -/
+  | cloned (prev : Obj) (bound : Bool)
+  /-- `dsk.layers[name]` itself -/
+  | verbatim
+  deriving Repr, Inhabited
+
+/-- the child's HighLevelGraph, abstracted: layer name ↦ (`dsk.dependencies[name]`, would `Layer.clone` bind a leaf
+    of this layer if a blocker is given) -/
+abbrev LayerMap := List (Obj × (List Obj × Bool))
+
+/-- `new_layers`, `new_deps` -/
+structure BindAcc where
+  layers : List (Obj × LayerOrigin)
+  deps : List (Obj × List Obj)
+  deriving Repr, Inhabited
+
+inductive BindRes (α : Type) where
+  | ok (a : α)
+  /-- `dsk.layers[name]` / `dsk.dependencies[name]` raised KeyError -/
+  | keyError (k : Obj)
+  | fuel
+  deriving Repr, Inhabited
+
+/-- `s.pop()` of a Python set: *some* element; `sel` chooses which (the theorems hold for every `sel`) -/
+def popAt (sel : List Obj → Nat) (w : List Obj) : Option (Obj × List Obj) :=
+  match w with
+  | [] => none
+  | x :: xs =>
+    match w[sel w % w.length]? with
+    | some y => some (y, w.eraseIdx (sel w % w.length))
+    | none => some (x, xs)
+
+/-- `s |= t` on duplicate-free lists -/
+def unionL (w xs : List Obj) : List Obj := w ++ xs.filter fun x => !w.contains x
+
+/-- `new_dep = {clone_key(dep) for dep in layer_deps - omit_layers} | (layer_deps & omit_layers)`, plus the blocker's key
+    when `is_bound` -/
+def newDepOf (ρ : Obj → Obj) (om : List Obj) (blk : Option Obj) (ldeps : List Obj) (leaf : Bool) : List Obj :=
+  (ldeps.filter fun d => !om.contains d).map ρ ++ (ldeps.filter fun d => om.contains d) ++
+    (match blk with
+     | some b => if leaf then [b] else []
+     | none => [])
+
+/-- `while layers_to_clone:` (lines 367-388). State: `layers_to_clone`, `layers_to_copy_verbatim`, `new_layers/new_deps`. -/
+def cloneLoop (G : LayerMap) (om : List Obj) (ρ : Obj → Obj) (blk : Option Obj) (sel : List Obj → Nat) :
+    Nat → List Obj → List Obj → BindAcc → BindRes (List Obj × BindAcc)
+  | 0, work, verb, acc =>
+    match popAt sel work with
+    | none => .ok (verb, acc)
+    | some _ => .fuel
+  | fuel + 1, work, verb, acc =>
+    match popAt sel work with
+    | none => .ok (verb, acc)
+    | some (prev, rest) =>
+      if (acc.layers.lookup (ρ prev)).isSome then cloneLoop G om ρ blk sel fuel rest verb acc
+      else
+        match G.lookup prev with
+        | none => .keyError prev
+        | some (ldeps, leaf) =>
+          cloneLoop G om ρ blk sel fuel
+            (unionL rest (ldeps.filter fun d => !om.contains d))
+            (unionL verb (ldeps.filter fun d => om.contains d))
+            ⟨setKey acc.layers (ρ prev) (.cloned prev (blk.isSome && leaf)),
+             setKey acc.deps (ρ prev) (newDepOf ρ om blk ldeps leaf)⟩
+
+/-- `while layers_to_copy_verbatim:` (lines 394-401) -/
+def verbLoop (G : LayerMap) (sel : List Obj → Nat) : Nat → List Obj → BindAcc → BindRes BindAcc
+  | 0, work, acc =>
+    match popAt sel work with
+    | none => .ok acc
+    | some _ => .fuel
+  | fuel + 1, work, acc =>
+    match popAt sel work with
+    | none => .ok acc
+    | some (name, rest) =>
+      if (acc.layers.lookup name).isSome then verbLoop G sel fuel rest acc
+      else
+        match G.lookup name with
+        | none => .keyError name
+        | some (ldeps, _) =>
+          verbLoop G sel fuel (unionL rest ldeps) ⟨setKey acc.layers name .verbatim, setKey acc.deps name ldeps⟩
+
+/-- the initial `new_layers`, `new_deps`: the blocker's layers and dependencies (`B`), or empty without a blocker -/
+def bindInit (blk : Option Obj) (B : List (Obj × List Obj)) : BindAcc :=
+  match blk with
+  | some _ => ⟨B.map fun e => (e.1, .blocker), B⟩
+  | none => ⟨[], []⟩
+
+/-- `_bind_one` up to the call of `rebuild`: the layers and dependencies of the new HighLevelGraph.
+    `child` = `child.__dask_layers__()`, `blk` = the blocker's key, `B` = `blocker_dsk.dependencies`. -/
+def bindOne (G : LayerMap) (child om : List Obj) (ρ : Obj → Obj) (blk : Option Obj) (B : List (Obj × List Obj))
+    (sel1 sel2 : List Obj → Nat) (fuel : Nat) : BindRes BindAcc :=
+  match cloneLoop G om ρ blk sel1 fuel child [] (bindInit blk B) with
+  | .ok (verb, acc) => verbLoop G sel2 fuel verb acc
+  | .keyError k => .keyError k
+  | .fuel => .fuel
+
+/-- a fuel that always suffices (`bindOne_fuel`) -/
+def bindFuel (G : LayerMap) (child : List Obj) : Nat := child.length + 2 * (G.map fun e => e.2.1.length).sum
 
 end Dask.TaskTerm
